@@ -232,6 +232,7 @@ func (p *storageProvider) deleteSegment(segmentID uint64) error {
 	var errs []error
 
 	for _, file := range files {
+		verifPoint("delete:before_remove", file)
 		if err := os.Remove(file); err != nil && !os.IsNotExist(err) {
 			errs = append(errs, fmt.Errorf("failed to delete %s: %w", file, err))
 		}
